@@ -519,9 +519,11 @@ expandfunc(struct macro *m)
 			break;
 		t = rawnext();
 	}
+	while (m->nparam == 0 && t->kind == TNEWLINE)
+		t = rawnext();
 	if (i + 1 < m->nparam)
 		error(&t->loc, "not enough arguments for macro '%s'", m->name);
-	if (t->kind != TRPAREN)
+	if (t->kind != TRPAREN || i == m->nparam && i > 0)
 		error(&t->loc, "too many arguments for macro '%s'", m->name);
 	for (i = 0, t = tok.val; i < m->nparam; ++i) {
 		arg[i].token = t;
